@@ -8,9 +8,10 @@ from proto import IMPL, MODEL, kv, run_batch
 # fields the model also prints, per operation kind (everything else the implementation prints is
 # implementation-only: hashes, texts)
 MODEL_FIELDS = {
-    "recv": ["ack", "src", "bal", "sup", "req", "ev", "st"],
+    "recv": ["ack", "src", "bal", "sup", "req", "ev", "mv", "st"],
     "recvh": ["ack", "src", "bal", "sup", "hreq", "calls", "ev", "st"],
     "msg": ["res", "ev", "st"],
+    "msgdry": ["res", "st"],
     "msgh": ["res", "hreq", "st"],
     "acth": ["res", "dst", "bal"],
     "query": ["res", "out", "next", "total"],
